@@ -282,6 +282,7 @@ func (in *Interp) runJob(job Job) (res *JobResult) {
 		in.solver = s
 	}
 	in.solver.Reset()
+	TT.Purge()
 	if in.cross != nil {
 		in.cross.Reset()
 	}
@@ -351,6 +352,7 @@ func workerMain(repo string) {
 		}()
 		in.initAll()
 	}()
+	TT.Mark()
 	fmt.Println("READY")
 	sc := bufio.NewScanner(os.Stdin)
 	sc.Buffer(make([]byte, 1<<20), 1<<26)
